@@ -695,7 +695,7 @@ func runCase(r *vf.Run, pool []*keys.Identity, cs *caseSpec) {
 func TestC04(t *testing.T) {
 	r := vf.Start(t, "C04", vf.Exploration)
 	defer r.Finish()
-	r.SetRule("Each case: a fresh bus with two real transport controllers (local identities 1, 2), 5-10 fake links (node, uuid from 4 shared values, remote = one of 3 remote identities / the other local identity / the local identity itself), and a PRNG script of 20-44 operations split over 1-3 goroutines: Est(link), Lost(link), add EstablishLinkWithPeer(S, D) with S in {empty, local 1, local 2, a non-local identity} and D in {any of the 5 identities, rarely empty}, release a directive, inject an incoming stream (complete establish header) into a link, open a stream through a currently attached value. About half of the cases have a start-up phase in addition: 0-3 directives are added before the transport controllers exist, and the fake transport of a node reports 1-4 link events (Est / Lost of its links, self links preferred, one more self link added to the case half of the time) from inside the constructor callback the controller invokes while starting, each from a goroutine of its own after 0-3 yields (the calls may block until the controller is up), the constructor yielding 0-50 times before it returns; whether such a call is applied before or after the controller got its peer id is left to the scheduler and recorded from the hook snapshot (a link reported established while the controller is not running is refused: it must be closed and is never in the reference table). A case is non-trivial when at least one value was yielded and at least one stream was delivered or opened; distinct = distinct (links, scripts). Oracle (harness ground truth, values mapped back to the fake link by a serial carried in GetRemoteTransportUUID): every value ever yielded for (S, D) is a harness link with remote == D, local == S when S is given, remote != local, that the controller had accepted as established before the value appeared; a self link reported as established has Close called (judged in a settled state) and never yields values or streams; every delivered / opened stream reports its link's remote peer, the HandleMountedStream directive carries the link's local and remote peers, and an opened stream's header arrives on the very link the value stands for. When a handler call never reaches its hook (no reference table can be replayed) the case is inconclusive, but the clauses that need no table (remote / local / self / stream peers) are still judged. RESTART CASES (restart_test.go, quick 240 / thorough 3000, same oracle plus one clause): one or two real transport controllers that are EXECUTED AGAIN on the same Controller instance whenever Execute returned, by a harness loop calling bus.ExecuteController like the controllerbus loader does, or (1 in 4 nodes) by the real loader with a zero backoff; node 0 is configured with an empty peer id in 7 of 10 cases (it takes the peer found on the bus; the harness runs one of two candidate peer controllers and swaps them before 2 of 3 restarts of that node), node 1 (half of the cases) has a fixed peer id. The harness learns the identity of each execution from the private key handed to the transport constructor; fake links belong to one execution (local peer = its identity; slots: 4 links to 3 remote identities with uuids from 3 shared values, a self link, a link to a local identity) and are only reported through that execution's handler. Script: a sequential prologue (1-3 links up per node, 0-2 requests), 10-25 operations over 1-2 goroutines (link established / lost in the current execution, add EstablishLinkWithPeer(S, D) with S in {empty, the identity node 0 / node 1 has at that moment, any of the 3 local identities, a remote identity}, release, RESTART of a node: the fake transport's Execute returns an error (2/3) or the execution context is cancelled (1/3), optionally 1-2 following executions fail in the constructor; link reports race with the exit and are applied before the next constructor returns), at least one restart per case, and a sequential epilogue (0-2 links up per node, requests from the empty source and from the current identities to the remote identities). A restart case is non-trivial when at least one restart completed and at least one value was yielded to a request added after an execution had ended. Extra clause: a request added after bus.ExecuteController of execution k of a node had returned (the controller's exit handler has dropped and closed every link of that execution and the bus has removed the controller's resolvers and their values) must never be given a link of an execution <= k of that node, and within the value history of one directive (callbacks are delivered in the order the values were added) a link of an execution <= k never appears after a link of an execution > k. GATED CASES (gate_test.go, quick 300 / thorough 4000, same value oracle): CONCURRENT lookups for different target peers on ONE transport controller with value handlers that block: 2-3 target peers with 2-4 links each (distinct uuids; 1 case in 4 has one more link sharing a uuid with a link of another peer), a prologue (2 of 3 links up, a request from the empty or the local source for 3 of 4 peers), then 2-5 rounds. In a round the harness arms a gate on one request (an existing one, or 1 in 3 a NEW request added from a goroutine of its own, whose first answer is the whole list of its peer's links; 1 in 4 gates hold a callback of any kind, else the next value-added callback), performs 1-3 link events (3 of 4 on the held request's peer) and waits (condition) until the callback is parked at the gate or the request has nothing left to be told; the resolver answering the request is then parked inside its emit call, no controller lock held, possibly with more links of its answer still to emit. While it is parked, 1-4 operations make the OTHER lookups of the controller run (a link event wakes every resolver of the controller; new requests for other peers from the empty / local / a non-local source; a release), each link event awaited at its hook, and the harness waits until every other live request holds exactly what the reference table holds for it (or all controller goroutines are observed parked); only then, after arming the next round's gate (often on the same request, so that the remainder of its answer is held again, link by link), the parked callback is let go. No duration decides anything. A gated case is non-trivial when a callback was held in at least one round, at least one lookup-triggering operation ran during a hold and at least two values were yielded.")
+	r.SetRule("Each case: a fresh bus with two real transport controllers (local identities 1, 2), 5-10 fake links (node, uuid from 4 shared values, remote = one of 3 remote identities / the other local identity / the local identity itself), and a PRNG script of 20-44 operations split over 1-3 goroutines: Est(link), Lost(link), add EstablishLinkWithPeer(S, D) with S in {empty, local 1, local 2, a non-local identity} and D in {any of the 5 identities, rarely empty}, release a directive, inject an incoming stream (complete establish header) into a link, open a stream through a currently attached value. About half of the cases have a start-up phase in addition: 0-3 directives are added before the transport controllers exist, and the fake transport of a node reports 1-4 link events (Est / Lost of its links, self links preferred, one more self link added to the case half of the time) from inside the constructor callback the controller invokes while starting, each from a goroutine of its own after 0-3 yields (the calls may block until the controller is up), the constructor yielding 0-50 times before it returns; whether such a call is applied before or after the controller got its peer id is left to the scheduler and recorded from the hook snapshot (a link reported established while the controller is not running is refused: it must be closed and is never in the reference table). A case is non-trivial when at least one value was yielded and at least one stream was delivered or opened; distinct = distinct (links, scripts). Oracle (harness ground truth, values mapped back to the fake link by a serial carried in GetRemoteTransportUUID): every value ever yielded for (S, D) is a harness link with remote == D, local == S when S is given, remote != local, that the controller had accepted as established before the value appeared; a self link reported as established has Close called (judged in a settled state) and never yields values or streams; every delivered / opened stream reports its link's remote peer, the HandleMountedStream directive carries the link's local and remote peers, and an opened stream's header arrives on the very link the value stands for. When a handler call never reaches its hook (no reference table can be replayed) the case is inconclusive, but the clauses that need no table (remote / local / self / stream peers) are still judged. RESTART CASES (restart_test.go, quick 240 / thorough 3000, same oracle plus one clause): one or two real transport controllers that are EXECUTED AGAIN on the same Controller instance whenever Execute returned, by a harness loop calling bus.ExecuteController like the controllerbus loader does, or (1 in 4 nodes) by the real loader with a zero backoff; node 0 is configured with an empty peer id in 7 of 10 cases (it takes the peer found on the bus; the harness runs one of two candidate peer controllers and swaps them before 2 of 3 restarts of that node), node 1 (half of the cases) has a fixed peer id. The harness learns the identity of each execution from the private key handed to the transport constructor; fake links belong to one execution (local peer = its identity; slots: 4 links to 3 remote identities with uuids from 3 shared values, a self link, a link to a local identity) and are only reported through that execution's handler. Script: a sequential prologue (1-3 links up per node, 0-2 requests), 10-25 operations over 1-2 goroutines (link established / lost in the current execution, add EstablishLinkWithPeer(S, D) with S in {empty, the identity node 0 / node 1 has at that moment, any of the 3 local identities, a remote identity}, release, RESTART of a node: the fake transport's Execute returns an error (2/3) or the execution context is cancelled (1/3), optionally 1-2 following executions fail in the constructor; link reports race with the exit and are applied before the next constructor returns), at least one restart per case, and a sequential epilogue (0-2 links up per node, requests from the empty source and from the current identities to the remote identities). Half of the cases with a floating node 0 are in addition of the class REQUEST FOR THE FORMER IDENTITY PENDING ACROSS AN IDENTITY CHANGE: the prologue begins with a request (identity node 0 has at that moment -> a remote peer d of one of its link slots; 1 in 2 after a link to another remote peer came up) whose AddDirective call a harness handler on the bus (added after the controller's, hence asked after it; the bus asks the handlers with its mutex released) holds between the handlers having been asked and their resolvers being attached, while node 0's execution ends (error or cancel, 1 in 6 followed by a failing constructor) and the next one with the SAME identity comes up (conditions, no durations); the call is then let go, so the resolver the ended execution's handler returned is attached after that handler was removed and stays for good; the generated history runs in between; the epilogue begins with two restarts of node 0, the local peer on the bus replaced before each, a link to d (1 in 3 another one too) reported in each of the two executions, at least one of which has another identity than the request names. A restart case is non-trivial when at least one restart completed and at least one value was yielded to a request added after an execution had ended. Extra clause: a request added after bus.ExecuteController of execution k of a node had returned (the controller's exit handler has dropped and closed every link of that execution and the bus has removed the controller's resolvers and their values) must never be given a link of an execution <= k of that node, and within the value history of one directive (callbacks are delivered in the order the values were added) a link of an execution <= k never appears after a link of an execution > k. GATED CASES (gate_test.go, quick 300 / thorough 4000, same value oracle): CONCURRENT lookups for different target peers on ONE transport controller with value handlers that block: 2-3 target peers with 2-4 links each (distinct uuids; 1 case in 4 has one more link sharing a uuid with a link of another peer), a prologue (2 of 3 links up, a request from the empty or the local source for 3 of 4 peers), then 2-5 rounds. In a round the harness arms a gate on one request (an existing one, or 1 in 3 a NEW request added from a goroutine of its own, whose first answer is the whole list of its peer's links; 1 in 4 gates hold a callback of any kind, else the next value-added callback), performs 1-3 link events (3 of 4 on the held request's peer) and waits (condition) until the callback is parked at the gate or the request has nothing left to be told; the resolver answering the request is then parked inside its emit call, no controller lock held, possibly with more links of its answer still to emit. While it is parked, 1-4 operations make the OTHER lookups of the controller run (a link event wakes every resolver of the controller; new requests for other peers from the empty / local / a non-local source; a release), each link event awaited at its hook, and the harness waits until every other live request holds exactly what the reference table holds for it (or all controller goroutines are observed parked); only then, after arming the next round's gate (often on the same request, so that the remainder of its answer is held again, link by link), the parked callback is let go. No duration decides anything. A gated case is non-trivial when a callback was held in at least one round, at least one lookup-triggering operation ran during a hold and at least two values were yielded.")
 	r.Assume("a fake link's local peer is the peer of the transport that reports it")
 	r.Assume("completeness (an established link IS yielded) and removal of values of lost links are not part of C04; they are checked by C06")
 	pool := keys.Pool(r.Rand("c04-keys"), 5)
@@ -719,6 +719,14 @@ func TestC04(t *testing.T) {
 	rcases := make([]*rcaseSpec, rn)
 	for i := range rcases {
 		rcases[i] = genRCase(rrng, i)
+	}
+	// 1 in 2 of the cases with a floating node 0: a request for the identity of
+	// that moment is pending across later identity changes (addPendingPlan)
+	prng := r.Rand("c04-restart-pending")
+	for _, cs := range rcases {
+		if prng.IntN(2) == 0 {
+			addPendingPlan(prng, cs)
+		}
 	}
 	// concurrent lookups with blocked value handlers (gate_test.go)
 	grng := r.Rand("c04-gated-cases")
